@@ -49,10 +49,19 @@ def accesses(fn, is_lexer_obj):
     aliases = set()
     for _ in range(3):
         for n in ast.walk(fn):
-            if isinstance(n, ast.Assign) and len(n.targets) == 1 and isinstance(n.targets[0], ast.Name):
-                c = chain(n.value) if isinstance(n.value, (ast.Attribute, ast.Name)) else None
+            pairs = []
+            if isinstance(n, ast.Assign) and len(n.targets) == 1:
+                t = n.targets[0]
+                if isinstance(t, ast.Name):
+                    pairs.append((t, n.value))
+                elif isinstance(t, ast.Tuple) and isinstance(n.value, ast.Tuple) and len(t.elts) == len(n.value.elts):
+                    pairs.extend(zip(t.elts, n.value.elts))      # a, lexer = t.value, t.lexer
+            for tgt, val in pairs:
+                if not isinstance(tgt, ast.Name):
+                    continue
+                c = chain(val) if isinstance(val, (ast.Attribute, ast.Name)) else None
                 if c and (is_lexer_obj(c) or (len(c) == 1 and c[0] in aliases)):
-                    aliases.add(n.targets[0].id)
+                    aliases.add(tgt.id)
     base = is_lexer_obj
     is_lexer_obj = lambda pre: base(pre) or (len(pre) == 1 and pre[0] in aliases)
     aug_targets = set()
